@@ -68,6 +68,3 @@ package fasthttp
 //@   pure
 //@   requires[clean-key] crlffree(key, len(key))
 //@   requires[clean-value] crlffree(value, len(value))
-//@ func peekArgBytes
-//@   trusted
-//@   pure
